@@ -180,39 +180,22 @@ Proof. vm_compute. reflexivity. Qed.
 
 (* 4. CHECK MODE IS NOT COMPLETE on the current code (refuted, with the witnesses the search replays on the real code):
       errors of normal mode that still RAISE in check mode.  The two append calls after the per-input try statement
-      (self._materials.append / self._transforms.append) and __load_data_inputs_to_object are outside every handler. *)
-Definition raises_in_check_mode (sname : string) (c : cls) : Prop :=
-  exists r, In r (t_raises gen_tables) /\ r_site r = sname /\ r_cls r = c /\
-    all_controlled H (route_at gen_tables false (r_site r) (r_local r) (mkexn (r_cls r) Deliberate)) = true /\
-    check_quiet gen_tables (r_site r) (r_local r) (mkexn (r_cls r) Deliberate) = false.
-
-Definition find_check_leak (sname : string) (c : cls) : option raise_row :=
-  find (fun r => String.eqb (r_site r) sname && String.eqb (r_cls r) c) (check_mode_leaks gen_tables).
-
-Lemma find_check_leak_sound : forall sname c r, find_check_leak sname c = Some r -> raises_in_check_mode sname c.
-Proof.
-  intros sname c r F. unfold find_check_leak in F. apply find_some in F. destruct F as [Hin E].
-  apply andb_true_iff in E. destruct E as [E1 E2].
-  apply String.eqb_eq in E1. apply String.eqb_eq in E2.
-  unfold check_mode_leaks in Hin. apply filter_In in Hin. destruct Hin as [Hin K].
-  apply andb_true_iff in K. destruct K as [K1 K2]. apply negb_true_iff in K2.
-  exists r. repeat split; assumption.
-Qed.
-
+      (self._materials.append / self._transforms.append) and __load_data_inputs_to_object are outside every handler;
+      a bare ValueError raised deliberately by a constructor is not in the per-input except tuple. *)
 Theorem C13_check_mode_complete_refuted :
-  raises_in_check_mode "append_material" "NumberConflictError" /\
-  raises_in_check_mode "append_transform" "NumberConflictError" /\
-  raises_in_check_mode "load_data" "MalformedInputError" /\
-  raises_in_check_mode "construct" "ValueError".
+  raises_in_check_mode gen_tables "append_material" "NumberConflictError" /\
+  raises_in_check_mode gen_tables "append_transform" "NumberConflictError" /\
+  raises_in_check_mode gen_tables "load_data" "MalformedInputError" /\
+  raises_in_check_mode gen_tables "construct" "ValueError".
 Proof.
-  repeat split.
-  - destruct (find_check_leak "append_material" "NumberConflictError") eqn:F;
+  split; [|split; [|split]].
+  - destruct (find_check_leak gen_tables "append_material" "NumberConflictError") eqn:F;
       [eapply find_check_leak_sound; exact F | vm_compute in F; discriminate].
-  - destruct (find_check_leak "append_transform" "NumberConflictError") eqn:F;
+  - destruct (find_check_leak gen_tables "append_transform" "NumberConflictError") eqn:F;
       [eapply find_check_leak_sound; exact F | vm_compute in F; discriminate].
-  - destruct (find_check_leak "load_data" "MalformedInputError") eqn:F;
+  - destruct (find_check_leak gen_tables "load_data" "MalformedInputError") eqn:F;
       [eapply find_check_leak_sound; exact F | vm_compute in F; discriminate].
-  - destruct (find_check_leak "construct" "ValueError") eqn:F;
+  - destruct (find_check_leak gen_tables "construct" "ValueError") eqn:F;
       [eapply find_check_leak_sound; exact F | vm_compute in F; discriminate].
 Qed.
 Print Assumptions C13_check_mode_complete_refuted.
@@ -229,67 +212,30 @@ Qed.
 Print Assumptions C13_check_mode_complete_partial.
 
 Example C13_check_mode_complete_partial_example : exists r,
-  In r (t_raises gen_tables) /\ r_site r = "tree_none" /\ r_cls r = "ParsingError" /\
+  In r (t_raises gen_tables) /\ r_site r = "construct" /\ r_cls r = "ParsingError" /\
+  all_controlled H (route_at gen_tables false (r_site r) (r_local r) (mkexn (r_cls r) Deliberate)) = true /\
   ~ In r (check_mode_leaks gen_tables).
 Proof.
-  destruct (find (fun r => String.eqb (r_site r) "tree_none" && String.eqb (r_cls r) "ParsingError"
-                           && negb (existsb (fun q => String.eqb (r_fn q) (r_fn r) && String.eqb (r_site q) (r_site r)
-                                                      && String.eqb (r_cls q) (r_cls r)) (check_mode_leaks gen_tables)))
-                 (t_raises gen_tables)) eqn:F; [|vm_compute in F; discriminate].
-  apply find_some in F. destruct F as [Hin E].
-  apply andb_true_iff in E. destruct E as [E E3]. apply andb_true_iff in E. destruct E as [E1 E2].
-  apply String.eqb_eq in E1. apply String.eqb_eq in E2. apply negb_true_iff in E3.
-  exists r. repeat split; try assumption.
-  intro K. rewrite <- not_true_iff_false in E3. apply E3. apply existsb_exists. exists r. split; [exact K|].
-  rewrite !String.eqb_refl. reflexivity.
+  destruct (find_quiet_raise gen_tables "construct" "ParsingError") eqn:F; [|vm_compute in F; discriminate].
+  exists r. eapply find_quiet_raise_sound; exact F.
 Qed.
 
 (* 5. LEAK-PRONE PRIMITIVE OPERATIONS (refuted / partial): operations of the reachable functions whose runtime
       exception no try statement on the way out converts.  Witnesses: the int() of ValueNode._convert_to_int reached
-      from the constructors after the guarded parser call (u=1.5, a real where a surface number is expected), and the
-      look-up of the FILL universe by number in the pointer update (fill=7 without universe 7). *)
-Definition leaks_primitive (sname fn : string) (k : prim) (c : cls) : Prop :=
-  exists p, In p (t_prims gen_tables) /\ p_site p = sname /\ p_fn p = fn /\ p_kind p = k /\
-    In c (prim_classes k) /\
-    all_controlled H (route_at gen_tables false (p_site p) (p_local p) (mkexn c Primitive)) = false.
-
-Definition prim_eqb (a b : prim) : bool :=
-  match a, b with
-  | IntConv, IntConv | FloatConv, FloatConv | Subscript, Subscript | NumLookup, NumLookup | Unpack, Unpack
-  | OptAttr, OptAttr | EnumConv, EnumConv | Assert, Assert | Next, Next | Lex, Lex => true
-  | _, _ => false
-  end.
-Lemma prim_eqb_eq : forall a b, prim_eqb a b = true -> a = b.
-Proof. destruct a, b; cbn; intros; try reflexivity; discriminate. Qed.
-
-Definition find_prim_leak (sname fn : string) (k : prim) (c : cls) : option prim_row :=
-  find (fun p => String.eqb (p_site p) sname && String.eqb (p_fn p) fn && prim_eqb (p_kind p) k
-                 && mem c (prim_classes k)
-                 && negb (all_controlled H (route_at gen_tables false (p_site p) (p_local p) (mkexn c Primitive))))
-       (t_prims gen_tables).
-
-Lemma find_prim_leak_sound : forall sname fn k c p,
-  find_prim_leak sname fn k c = Some p -> leaks_primitive sname fn k c.
-Proof.
-  intros sname fn k c p F. unfold find_prim_leak in F. apply find_some in F. destruct F as [Hin E].
-  repeat (apply andb_true_iff in E; let E' := fresh "E" in destruct E as [E E']).
-  apply String.eqb_eq in E. apply String.eqb_eq in E3. apply prim_eqb_eq in E2.
-  apply negb_true_iff in E0.
-  exists p. repeat split; try assumption.
-  unfold mem in E1. apply existsb_exists in E1. destruct E1 as [x [Hx Ex]]. apply String.eqb_eq in Ex. subst x. exact Hx.
-Qed.
-
+      from the constructors after the guarded parser call (u=1.5, a real where a surface number is expected), the
+      look-up of the FILL universe by number in the pointer update (fill=7 without universe 7), and the lexer's own
+      LexError (it is not a ValueError, so the guard of MCNP_Object.__init__ does not convert it). *)
 Theorem C13_primitive_leaks_refuted :
-  leaks_primitive "construct" "input_parser/syntax_node.py:ValueNode._convert_to_int" IntConv "ValueError" /\
-  leaks_primitive "cells_modifiers" "data_inputs/fill.py:Fill.push_to_cells.get_universe" NumLookup "KeyError" /\
-  leaks_primitive "parse" "input_parser/mcnp_input.py:Input.tokenize" Lex "LexError".
+  leaks_primitive gen_tables "construct" "input_parser/syntax_node.py:ValueNode._convert_to_int" IntConv "ValueError" /\
+  leaks_primitive gen_tables "cells_modifiers" "data_inputs/fill.py:Fill.push_to_cells.get_universe" NumLookup "KeyError" /\
+  leaks_primitive gen_tables "parse" "input_parser/mcnp_input.py:Input.tokenize" Lex "LexError".
 Proof.
-  repeat split.
-  - destruct (find_prim_leak "construct" "input_parser/syntax_node.py:ValueNode._convert_to_int" IntConv "ValueError") eqn:F;
+  split; [|split].
+  - destruct (find_prim_leak gen_tables "construct" "input_parser/syntax_node.py:ValueNode._convert_to_int" IntConv "ValueError") eqn:F;
       [eapply find_prim_leak_sound; exact F | vm_compute in F; discriminate].
-  - destruct (find_prim_leak "cells_modifiers" "data_inputs/fill.py:Fill.push_to_cells.get_universe" NumLookup "KeyError") eqn:F;
+  - destruct (find_prim_leak gen_tables "cells_modifiers" "data_inputs/fill.py:Fill.push_to_cells.get_universe" NumLookup "KeyError") eqn:F;
       [eapply find_prim_leak_sound; exact F | vm_compute in F; discriminate].
-  - destruct (find_prim_leak "parse" "input_parser/mcnp_input.py:Input.tokenize" Lex "LexError") eqn:F;
+  - destruct (find_prim_leak gen_tables "parse" "input_parser/mcnp_input.py:Input.tokenize" Lex "LexError") eqn:F;
       [eapply find_prim_leak_sound; exact F | vm_compute in F; discriminate].
 Qed.
 Print Assumptions C13_primitive_leaks_refuted.
@@ -307,11 +253,6 @@ Print Assumptions C13_primitive_leaks_partial.
 Example C13_primitive_leaks_partial_example : exists p,
   In p (t_prims gen_tables) /\ p_site p = "parse" /\ p_kind p = FloatConv /\ ~ In p (prim_leaks gen_tables).
 Proof.
-  destruct (find (fun p => String.eqb (p_site p) "parse" && prim_eqb (p_kind p) FloatConv && negb (prim_leaks_row gen_tables p))
-                 (t_prims gen_tables)) eqn:F; [|vm_compute in F; discriminate].
-  apply find_some in F. destruct F as [Hin E].
-  apply andb_true_iff in E. destruct E as [E E3]. apply andb_true_iff in E. destruct E as [E1 E2].
-  apply String.eqb_eq in E1. apply prim_eqb_eq in E2. apply negb_true_iff in E3.
-  exists p. repeat split; try assumption.
-  intro K. unfold prim_leaks in K. apply filter_In in K. destruct K as [_ K]. rewrite E3 in K. discriminate.
+  destruct (find_guarded_prim gen_tables "parse" FloatConv) eqn:F; [|vm_compute in F; discriminate].
+  exists p. eapply find_guarded_prim_sound; exact F.
 Qed.
